@@ -2068,7 +2068,25 @@ class Path:
         raise Unsupported(f'pattern {type(pat).__name__}')
 
     def ex_With(self, st, fr):
-        raise Unsupported('with statement')
+        # `with <model object> [as v]:` -- context managers are model objects (instances of a class of
+        # /verif/spec, e.g. the gmpy2 context model); the active managers form the *ambient stack*
+        # read by speclib.ambient().  Leaving the block (normally, by return or by raise) pops them.
+        if self.txns:
+            raise MergeAbort()
+        stack = self.__dict__.setdefault('with_stack', [])
+        n0 = len(stack)
+        for item in st.items:
+            v = self.ev(item.context_expr, fr)
+            if not isinstance(v, SObj) or self.index.find_class_attr(v.cls, '__ambient__') is None:
+                del stack[n0:]
+                raise Unsupported('with statement on a non-model context manager')
+            if item.optional_vars is not None:
+                self.assign(item.optional_vars, v, fr)
+            stack.append(v)
+        try:
+            self.exec_block(st.body, fr)
+        finally:
+            del stack[n0:]
 
     def ex_Global(self, st, fr):
         raise Unsupported('global statement')
